@@ -112,10 +112,19 @@ def _drive_files(args):
         f = io.BytesIO()
         events = []
         try:
+            if cfgspec[0] == 'pkgvar' and tid % 2:
+                # another writer with the packaged carrier assignment is used in this process just before
+                w0 = mciipm.IpmWriter(io.BytesIO(), encoding=codec, blocked=blocked)
+                w0.write({'MTI': '1240', 'PDS0001': 'other writer'})
+                w0.close()
             w = mciipm.IpmWriter(f, encoding=codec, iso_config=bc, blocked=blocked)
-            for m in msgs:
-                w.write(dict(m))
-                events.append(ipmc.iev(1, 'write', m=m))
+            if tid % 3 == 1:
+                w.write_many(dict(m) for m in msgs)          # the convenience entry point
+                events += [ipmc.iev(1, 'write', m=m) for m in msgs]
+            else:
+                for m in msgs:
+                    w.write(dict(m))
+                    events.append(ipmc.iev(1, 'write', m=m))
             w.close()
         except BaseException as ex:  # noqa
             events.append(ipmc.iev(1, 'next', out='exc', n=-1))
@@ -183,11 +192,11 @@ def run(rep, wd, tier, seed):
     # round trip at size
     nfiles = 240 if tier == 'thorough' else 33
     jobs = []
-    cfgs = (('pkg',), ('gen', 600 + seed))
+    cfgs = (('pkg',), ('gen', 600 + seed), ('pkgvar', 0))
     k = 0
     for cfgspec in cfgs:
         for codec in isocheck.CODECS_QUICK:
-            ids = list(range(k, k + nfiles // 6 + 1))
+            ids = list(range(k, k + nfiles // 9 + 1))
             k += len(ids)
             for part in core.split(ids, 3):
                 jobs.append((seed, cfgspec, codec, part))
